@@ -2082,7 +2082,7 @@ pub trait Buf {
     ///
     /// This function panics if `nbytes` is greater than 8.
     fn try_get_int(&mut self, nbytes: usize) -> Result<i64, TryGetError> {
-        buf_try_get_impl!(be => self, i64, nbytes);
+        self.try_get_uint(nbytes).map(|v| sign_extend(v, nbytes))
     }
 
     /// Gets a signed n-byte integer from `self` in little-endian byte order.
@@ -2114,7 +2114,7 @@ pub trait Buf {
     ///
     /// This function panics if `nbytes` is greater than 8.
     fn try_get_int_le(&mut self, nbytes: usize) -> Result<i64, TryGetError> {
-        buf_try_get_impl!(le => self, i64, nbytes);
+        self.try_get_uint_le(nbytes).map(|v| sign_extend(v, nbytes))
     }
 
     /// Gets a signed n-byte integer from `self` in native-endian byte order.
